@@ -23,9 +23,20 @@ def _assert_env():
     if not hasattr(sys, "monitoring"):
         print("HARNESS-ERROR sys.monitoring not available")
         sys.exit(2)
-    if os.environ.get("PYTHONHASHSEED") is None or os.environ.get("TZ") != "UTC":
+    if os.environ.get("PYTHONHASHSEED") is None or os.environ.get("TZ") != os.environ.get("HEXSIM_IMPORT_TZ", "UTC"):
         print("HARNESS-ERROR run through /verif/check (environment not pinned)")
         sys.exit(2)
+    if os.environ.get("HEXSIM_IMPORT_TZ"):
+        # a leg whose interpreter STARTED (and imported the library) under another zone: anything the library
+        # evaluates at import time has seen that zone; from here on the process runs under UTC like every other
+        import importlib
+        import pkgutil
+        import time
+
+        for mod in pkgutil.walk_packages(hexital.__path__, "hexital."):
+            importlib.import_module(mod.name)
+        os.environ["TZ"] = "UTC"
+        time.tzset()
 
 
 def main(argv):
@@ -51,13 +62,19 @@ def main(argv):
         path = argv[1]
         with open(path) as fh:
             want_hash = json.load(fh).get("hashseed")
-        if want_hash is not None and str(want_hash) != os.environ.get("PYTHONHASHSEED") \
-                and not os.environ.get("HEXSIM_REPLAY_REEXEC"):
+        with open(path) as fh:
+            want_tz = json.load(fh).get("import_tz")
+        differs = ((want_hash is not None and str(want_hash) != os.environ.get("PYTHONHASHSEED"))
+                   or (want_tz or None) != (os.environ.get("HEXSIM_IMPORT_TZ") or None))
+        if differs and not os.environ.get("HEXSIM_REPLAY_REEXEC"):
             # the file was found under another string-hash seed: replay it in an interpreter started with it
             import subprocess
 
-            env = dict(os.environ, HEXSIM_HASHSEED=str(want_hash), HEXSIM_REPLAY_REEXEC="1")
+            env = dict(os.environ, HEXSIM_HASHSEED=str(want_hash if want_hash is not None else 0), HEXSIM_REPLAY_REEXEC="1")
             env.pop("PYTHONHASHSEED", None)
+            env.pop("HEXSIM_IMPORT_TZ", None)
+            if want_tz:
+                env["HEXSIM_IMPORT_TZ"] = want_tz
             return subprocess.run([os.path.join(VERIF, "check"), "replay", path], env=env).returncode
         v, recorded = runner.replay_file(path)
         print(json.dumps({"status": v.status, "signature": v.signature, "op_index": v.op_index,
